@@ -20,7 +20,8 @@ Record ccase := mkCase {
                                 is "valid set with added peer entries" (peer indices, a sort key, shift):
                                 the routes of c_sub must be returned, in any order (a duplicated peer
                                 entry may supersede the hop field, hence the expiry, of a route) *)
-  c_sub : list opath }.      (* what the implementation returns for the valid subset alone *)
+  c_sub : list opath;        (* what the implementation returns for the valid subset alone *)
+  c_alt : list (list opath) }. (* results of repeated calls that differ from c_out (HashMap order) *)
 
 (** SHA-256 stand-ins for one case *)
 Definition case_hid (c : ccase) : list N -> N :=
@@ -118,6 +119,11 @@ Definition verdict (c : ccase) : N :=
   let bad := c_panic c
              || negb (forallb self_consistent (c_out c)) || negb (bytes0_decodes c)
              || negb (forallb (provenance_ok (c_cores c ++ c_noncores c)) (c_out c))
+             (* de-duplication keeps the latest expiry: on every observed run, for structurally
+                well-formed segment sets (incl. several copies of a segment with other timestamps) *)
+             || (forallb (fun s => wf_segb s && wf_peersb s) (c_cores c ++ c_noncores c)
+                 && negb (c_panic c)
+                 && negb (forallb (expiry_max_ok (c_cores c) (c_noncores c) (c_src c) (c_dst c)) (c_out c :: c_alt c)))
              || ((c_has_sub c =? 1) && negb ties && negb (route_subseq (c_sub c) (c_out c)))
              || ((c_has_sub c =? 2) && negb (forallb (fun p => existsb (same_route p) (c_out c)) (c_sub c)))
              || (c_wf c && negb (c04_ok c)) in
